@@ -30,7 +30,8 @@ F(p, m, d) == <<p, m, ToString(d)>>
 SeqToSet(q) == {q[i] : i \in 1..Len(q)}
 None == <<>>
 
-S0(n, tid) == [ws |-> [k \in 1..n |-> [ents |-> <<>>, doomed |-> {}, issued |-> {}]], tid |-> tid]
+\* stale: marker id |-> the entity it was taken from by hand (Unmark) - the allocator's mapping still names it
+S0(n, tid) == [ws |-> [k \in 1..n |-> [ents |-> <<>>, doomed |-> {}, issued |-> {}, stale |-> <<>>]], tid |-> tid]
 
 FnSet(f, k, v) == [x \in DOMAIN f \cup {k} |-> IF x = k THEN v ELSE f[x]]
 FnDel(f, ks)   == [x \in DOMAIN f \ ks |-> f[x]]
@@ -99,6 +100,14 @@ Step(S, ev) ==
         \cup (IF ~UniqueMarkers(obs) THEN {F("C15", "two live entities carry the same marker id", obs)} ELSE {})
       put(E2, W2) == [S EXCEPT !.ws[w] = [W2 EXCEPT !.ents = E2]]
       panic == ev.panic # ""
+      \* A marker component removed by hand leaves the allocator's mapping entry behind (only the allocator's
+      \* maintain rebuilds the mapping).  While the entity it names is alive and carries a marker again and no
+      \* live entity carries the id, what a retrieval of that id does is left open (the library reuses that entity).
+      Risky(m) == m \in DOMAIN W.stale /\ W.stale[m] \in DOMAIN E /\ E[W.stale[m]][1] # None /\ Carrier(E, m) = {}
+      \* ... and the id such an entity loses when it is reused is left behind in the mapping in turn
+      Lost == {h \in DOMAIN E \cap DOMAIN obs : E[h][1] # None /\ obs[h][1] # E[h][1]}
+      StaleAfter == [m \in DOMAIN W.stale \cup {E[h][1][1] : h \in Lost} |->
+                       IF \E h \in Lost : E[h][1][1] = m THEN CHOOSE h \in Lost : E[h][1][1] = m ELSE W.stale[m]]
   IN
   CASE ev.op = "Panic" ->       \* an operation that must succeed panicked inside the library
          [S |-> S, f |-> {F(p, "operation panicked", <<ev.in, ev.msg>>) : p \in (IF ev.in \in {"create", "ecreate"} THEN {"C01", "C15"} ELSE {"C14", "C15"})}]
@@ -147,11 +156,18 @@ Step(S, ev) ==
     [] ev.op = "Maintain" ->
          LET E2 == FnDel(E, W.doomed) IN
          [S |-> put(E2, [W EXCEPT !.doomed = {}]), f |-> cmp(E2, "C15", "maintain")]
-    [] ev.op = "AMaintain" -> [S |-> S, f |-> cmp(E, "C15", "allocator maintain")]
+    [] ev.op = "AMaintain" -> [S |-> put(E, [W EXCEPT !.stale = <<>>]), f |-> cmp(E, "C15", "allocator maintain")]
+    [] ev.op = "Unmark" ->    \* the marker component is removed by hand (Storage::remove)
+         LET live == ev.h \in DOMAIN E
+             had == live /\ E[ev.h][1] # None
+             E2 == IF had THEN [E EXCEPT ![ev.h] = <<None, @[2], @[3], @[4]>>] ELSE E
+         IN [S |-> put(E2, [W EXCEPT !.stale = IF had THEN FnSet(@, E[ev.h][1][1], ev.h) ELSE @]),
+             f |-> cmp(E2, "C15", "marker removed by hand")]
     [] ev.op = "Retrieve" ->   \* MarkerAllocator::retrieve_entity called directly (the creation path of deserialisation)
          LET cs == Carrier(E, ev.m)
              E2 == IF cs # {} THEN E ELSE FnSet(E, ev.res, <<<<ev.m>>, None, None, None>>)
-         IN [S |-> put(E2, [W EXCEPT !.issued = @ \cup {ev.res}]),
+         IN IF Risky(ev.m) THEN [S |-> put(obs, [W EXCEPT !.issued = @ \cup {ev.res}, !.stale = StaleAfter]), f |-> {}] ELSE
+            [S |-> put(E2, [W EXCEPT !.issued = @ \cup {ev.res}]),
              f |-> (IF cs # {} /\ ev.res \notin cs
                     THEN {F("C15", "a live entity carries the marker, yet retrieval returned another entity (returned, carriers)", <<ev.res, cs>>)} ELSE {})
               \cup (IF cs = {} /\ ev.res \in W.issued
@@ -166,10 +182,16 @@ Step(S, ev) ==
              dupM == \E i, j \in 1..Len(ev.data) : i # j /\ ev.data[i].m = ev.data[j].m
              dupF == IF dupM THEN {F("C14", "serialised data holds the same marker twice: a load cannot produce one entity per source entity", ev.data),
                                    F("C15", "serialised data holds the same marker twice", ev.data)} ELSE {}
+             \* the serialisation returned an error / the script's reference conversion reports a reference to an
+             \* entity without marker as an error (instead of panicking like the library's own Entity conversion)
+             errd == "err" \in DOMAIN ev /\ ev.err
+             fall == "fallible" \in DOMAIN ev /\ ev.fallible
          IN IF ~ev.rec
             THEN [S |-> S,
-                  f |-> dupF \cup (IF ok /\ panic THEN {F("C14", "serialisation failed", ev.panic)} ELSE {})
-                   \cup (IF ok /\ ~panic /\ ev.data # want THEN {F("C14", "serialised data differs from the marked entities (got, expected)", <<ev.data, want>>)} ELSE {})
+                  f |-> dupF \cup (IF ok /\ (panic \/ errd) THEN {F("C14", "serialisation failed", ev.panic)} ELSE {})
+                   \cup (IF ~ok /\ fall /\ ~errd
+                         THEN {F("C14", "the conversion of a marked entity's component fails, yet the serialisation did not report an error (data returned)", ev.data)} ELSE {})
+                   \cup (IF ok /\ ~panic /\ ~errd /\ ev.data # want THEN {F("C14", "serialised data differs from the marked entities (got, expected)", <<ev.data, want>>)} ELSE {})
                    \cup cmp(E, "C14", "save must not change the world")]
             ELSE \* recursive: everything reachable gets marked (marker ids as observed), then is written
                  LET cl == Closure(E, marked)
@@ -196,7 +218,8 @@ Step(S, ev) ==
              NewOf == [m \in unknown |-> IF carriers(m) # {} THEN CHOOSE h \in carriers(m) : TRUE ELSE <<0 - 1, 0 - 1>>]
              E2 == ApplyRecs(E, recs, 1, NewOf)
              prop == ev.ctx
-         IN [S |-> put(IF wellFormed THEN E2 ELSE obs, [W EXCEPT !.issued = @ \cup fresh]),
+         IN IF \E m \in MentionedMarkers(recs) : Risky(m) THEN [S |-> put(obs, [W EXCEPT !.issued = @ \cup fresh, !.stale = StaleAfter]), f |-> {}] ELSE
+            [S |-> put(IF wellFormed THEN E2 ELSE obs, [W EXCEPT !.issued = @ \cup fresh]),
              f |-> (IF panic THEN {F(prop, "deserialisation failed", ev.panic)} ELSE {})
               \cup (IF ~panic /\ ~wellFormed
                     THEN {F(prop, "load must create exactly one entity per unknown marker and none otherwise (unknown markers, new entities)", <<unknown, [h \in fresh |-> obs[h][1]]>>)} ELSE {})
